@@ -4,12 +4,14 @@ from harness.props.common import *
 from harness.gen.trees import gen_tree, gen_ops, gen_column
 
 THEOREM_NOTE = ("Props/C16.lean: render(t in any object state, w) = render(t with all state forgotten, w) for every widget tree and width; render keeps "
-                "the contents; corollaries: render twice, other width in between, add after render = build from scratch")
+                "the contents; corollaries: render twice, other width in between, add after render = build from scratch"
+                ' Props/C16b.lean: the same for ColumnWidget and EntryWidget.')
 ASSUMPTIONS = ASSUME_PY + ["widgets.py / containers.py write no module-level state (AST scan in this check, reported in the evidence)",
                            "ColumnWidget (deprecated) is modelled only as used by CheckboxWidget; CenterWidget with a child wider than the width (negative draw column) is outside the model and not compared"]
 RULE = ("seeded random widget trees (depth <= 3: text, separator, center, checkbox, window, row/column list containers with 0..11 items, 0..4 columns, "
         "forced/unforced width, numbering patterns and offsets) with sequences of 1..5 render(w) / add / add-to-a-nested-container operations at varying and repeated widths on the kept object; "
-        "the oracle renders a freshly built equal tree for every render; non-trivial = >= 2 renders on one object with a container inside")
+        "the oracle renders a freshly built equal tree for every render; non-trivial = >= 2 renders on one object with a container inside"
+        ' Later rounds: kept ColumnWidget objects rendered at widths in turn against fresh ones; shared widget objects; structure check (no module-level / default-argument state).')
 LEAN_MODULES = ['C16', 'C16b']
 
 
